@@ -31,6 +31,7 @@ type Engine struct {
 	funcDecls     map[string]*ast.FuncDecl
 	funcPkg       map[string]*packages.Package
 	varLits       map[string]*ast.FuncLit // package-level `var f = func...` units
+	varInits      map[string]bool         // package-level `var v = f(args)` units (synthetic function around the initialiser call)
 	verbose       bool
 	luaTrusted    []string
 	notDecided    map[string][]string
@@ -46,7 +47,7 @@ type Engine struct {
 func newEngine(repo, verif string) *Engine {
 	return &Engine{repo: repo, verif: verif, cs: newContractSet(), pkgs: map[string]*packages.Package{}, famSorts: map[string]Sort{},
 		trusted: map[string]map[string]bool{}, meta: map[string]map[string]bool{}, contractDirs: map[string]string{},
-		funcDecls: map[string]*ast.FuncDecl{}, funcPkg: map[string]*packages.Package{}, varLits: map[string]*ast.FuncLit{}, notDecided: map[string][]string{}, lemmaUsed: map[string]bool{}, repDone: map[string]bool{}}
+		funcDecls: map[string]*ast.FuncDecl{}, funcPkg: map[string]*packages.Package{}, varLits: map[string]*ast.FuncLit{}, varInits: map[string]bool{}, notDecided: map[string][]string{}, lemmaUsed: map[string]bool{}, repDone: map[string]bool{}}
 }
 
 func (e *Engine) specError(msg string) {
@@ -225,6 +226,18 @@ func (e *Engine) load(only map[string]bool) error {
 						}
 						for i, nm := range vs.Names {
 							lit, isLit := ast.Unparen(vs.Values[i]).(*ast.FuncLit)
+							if call, isCall := ast.Unparen(vs.Values[i]).(*ast.CallExpr); isCall && nm.Name != "_" {
+								// package-level `var v = f(args)`: the initialiser call is a unit too (contract header `//@ func v`):
+								// a synthetic parameterless function whose body is the real call expression
+								k := p.PkgPath + "." + nm.Name
+								if _, taken := e.funcDecls[k]; !taken {
+									e.funcDecls[k] = &ast.FuncDecl{Name: nm, Type: &ast.FuncType{Params: &ast.FieldList{}},
+										Body: &ast.BlockStmt{Lbrace: call.Pos(), List: []ast.Stmt{&ast.ExprStmt{X: call}}, Rbrace: call.End()}}
+									e.funcPkg[k] = p
+									e.varInits[k] = true
+								}
+								continue
+							}
 							if !isLit || nm.Name == "_" {
 								continue
 							}
@@ -334,6 +347,8 @@ func (e *Engine) runUnit(c *Contract) (u *Unit) {
 	u.body = fd.Body
 	if lit := e.varLits[baseKey]; lit != nil {
 		u.sig, _ = pkg.TypesInfo.TypeOf(lit).(*types.Signature)
+	} else if e.varInits[baseKey] {
+		u.sig = types.NewSignatureType(nil, nil, nil, nil, nil, false)
 	} else {
 		obj := pkg.TypesInfo.Defs[fd.Name].(*types.Func)
 		u.sig = obj.Type().(*types.Signature)
